@@ -69,6 +69,10 @@ class SigGen:
             base = rng.randrange(k) if k and rng.random() < 0.6 else None
             nsig = rng.randint(2, 4) if self.many_attrs else rng.randint(1, 3)
             sigs = {a: rng.randrange(nev) for a in rng.sample(ATTRS, nsig)}
+            if rng.random() < 0.35:
+                # a private signal (`__changed = Signal(...)` in the class body): the attribute is name-mangled
+                # per class, so a base class and a subclass each have their own
+                sigs[f"_O{k}__changed"] = rng.randrange(nev)
             classes.append({"name": f"O{k}", "base": base, "signals": sigs, "falsy": rng.random() < 0.3})
         instances = [rng.randrange(ncls) for _ in range(rng.randint(1, 4))]
         copies = {}
@@ -113,6 +117,12 @@ class SigGen:
         return {"op": "access", "inst": inst, "attr": attr, "evcls": ev}
 
     def gen_filter(self) -> dict[str, Any]:
+        f = self.gen_filter_kind()
+        if f["k"] != "all" and self.rng.random() < 0.3:
+            f["obj"] = self.rng.choice(["truthy", "falsy"])     # the filter is a callable object
+        return f
+
+    def gen_filter_kind(self) -> dict[str, Any]:
         rng = self.rng
         r = rng.random()
         if r < 0.4:
